@@ -86,9 +86,11 @@ def rd_pack_info(f):
     if t == K_SIZE:
         sizes = [rd_number(f) for _ in range(n)]
         t = rd_byte(f)
-    if t == K_CRC:
-        crcs = rd_digests(f, n)
-        t = rd_byte(f)
+        if t == K_CRC:
+            crcs = rd_digests(f, n)
+            t = rd_byte(f)
+    # (digests without sizes: the format text brackets both as optional; 7-Zip's own reader waits for kSize first,
+    #  and packed streams without sizes cannot be located - not accepted here either)
     if t != K_END:
         raise FormatError("pack info end")
     return {"packpos": packpos, "sizes": sizes, "crcs": crcs}
